@@ -40,7 +40,9 @@ type Spec struct {
 	Lit   []uint64 `json:"lit,omitempty"`
 }
 
-func isNaNBits(b uint64) bool { return b&0x7FF0000000000000 == 0x7FF0000000000000 && b&0x000FFFFFFFFFFFFF != 0 }
+func isNaNBits(b uint64) bool {
+	return b&0x7FF0000000000000 == 0x7FF0000000000000 && b&0x000FFFFFFFFFFFFF != 0
+}
 
 // zzdec is the textbook zig-zag decoding (reference, not the repo's).
 func zzdec(u uint64) uint64 { return (u >> 1) ^ (-(u & 1)) }
@@ -160,8 +162,8 @@ var (
 	boolAlpha = []uint64{0, 1}
 	s8Alpha   = []uint64{0, 1, 2, 3, 7, 8, 255, 1 << 20, 1<<30 - 1, 1<<60 - 1, 1 << 60, math.MaxUint64}
 
-	strAlpha []string // index -> string
-	strIndex = map[string]uint64{}
+	strAlpha  []string // index -> string
+	strIndex  = map[string]uint64{}
 	nSmallStr int // strAlpha[:nSmallStr] are the short strings
 )
 
@@ -1271,6 +1273,9 @@ func checkBlock(cs Case) (outcome string, fails []fail) {
 	if len(fails) > 0 {
 		verdict = "VIOLATION"
 	}
+	if tbranch == "" {
+		tbranch = "ts=-"
+	}
 	outcome = fmt.Sprintf("block/%s/%s/%s/%s", typ, tbranch, nBucket(len(raw)), verdict)
 	return
 }
@@ -1454,10 +1459,10 @@ const tsBase = uint64(1600000000000000000)
 // block-level timestamp patterns for a block of n points
 func tsPatterns(n int) []Spec {
 	return []Spec{
-		{Kind: "const", N: n, A: 1e9, Mode: "delta", Start: tsBase},                                         // regular: RLE with divisor
-		{Kind: "const", N: n, A: 0, Mode: "delta", Start: 42},                                                // equal neighbours
-		{Kind: "cycle", N: n, Lit: []uint64{1, 10, 3, 1000, 7}, Mode: "delta", Start: tsBase},                // irregular: simple8b
-		{Kind: "cycle", N: n, Lit: []uint64{0, 1 << 62, 1, 1<<63 + 5, 20}, Mode: "delta", Start: 1 << 63},    // huge deltas starting at MinInt64: uncompressed
+		{Kind: "const", N: n, A: 1e9, Mode: "delta", Start: tsBase},                                           // regular: RLE with divisor
+		{Kind: "const", N: n, A: 0, Mode: "delta", Start: 42},                                                 // equal neighbours
+		{Kind: "cycle", N: n, Lit: []uint64{1, 10, 3, 1000, 7}, Mode: "delta", Start: tsBase},                 // irregular: simple8b
+		{Kind: "cycle", N: n, Lit: []uint64{0, 1 << 62, 1, 1<<63 + 5, 20}, Mode: "delta", Start: 1 << 63},     // huge deltas starting at MinInt64: uncompressed
 		{Kind: "cycle", N: n, Lit: []uint64{5000, 1000, 1000, 2000}, Mode: "delta", Start: math.MaxInt64 - 9}, // simple8b with divisor, wraps past MaxInt64
 	}
 }
@@ -1704,7 +1709,7 @@ func TestCheck(t *testing.T) {
 			"the scalar timestamp/integer codecs use github.com/jwilder/encoding/simple8b (third party); it is exercised only through them",
 		},
 		QuickBudgetS: 60, ThoroughBudgetS: 780,
-		Run:          explore,
+		Run: explore,
 		Replay: func(c *vlib.Ctx, raw json.RawMessage) (bool, string) {
 			var cs Case
 			if err := json.Unmarshal(raw, &cs); err != nil {
